@@ -1333,8 +1333,15 @@ def from_str(x, prec, rnd=round_fast):
     # XXX: appropriate cutoffs & track direction
     # note no factors of 5
     if abs(exp) > 400:
-        s = from_int(man, prec+10)
-        s = mpf_mul(s, mpf_pow_int(ften, exp, prec+10), prec, rnd)
+        # round the two factors in the direction that keeps a directed
+        # result on the correct side of the exact value
+        if rnd == round_up or (rnd == round_ceiling and man >= 0) or \
+           (rnd == round_floor and man < 0):
+            rnd2 = round_up
+        else:
+            rnd2 = round_down
+        s = from_int(man, prec+10, rnd2)
+        s = mpf_mul(s, mpf_pow_int(ften, exp, prec+10, rnd2), prec, rnd)
     else:
         if exp >= 0:
             s = from_int(man * 10**exp, prec, rnd)
